@@ -1,10 +1,10 @@
 #!/usr/bin/env python3
 import json, os
 res = {}
-for f in ('/var/tmp/seeded_results.json', '/var/tmp/seeded_results2.json', '/var/tmp/seeded_results3.json', '/var/tmp/seeded_results4.json', '/var/tmp/seeded_results5.json', '/var/tmp/seeded_results6.json'):
+for f in ('/var/tmp/seeded_results.json', '/var/tmp/seeded_results2.json', '/var/tmp/seeded_results3.json', '/var/tmp/seeded_results4.json', '/var/tmp/seeded_results5.json', '/var/tmp/seeded_results6.json', '/var/tmp/seeded_results6b.json'):
     if os.path.exists(f): res.update(json.load(open(f)))
 ver = {}
-for f in ('/var/tmp/seeded_verify1.json', '/var/tmp/seeded_verify2.json', '/var/tmp/seeded_verify3.json', '/var/tmp/seeded_verify4.json', '/var/tmp/seeded_verify5.json'):
+for f in ('/var/tmp/seeded_verify1.json', '/var/tmp/seeded_verify2.json', '/var/tmp/seeded_verify3.json', '/var/tmp/seeded_verify4.json', '/var/tmp/seeded_verify5.json', '/var/tmp/seeded_verify6.json'):
     if os.path.exists(f): ver.update(json.load(open(f)))
 rows = []
 for d in sorted(os.listdir('/verif/seeded')):
